@@ -112,6 +112,8 @@ func checkC06(w *World, r *Report) {
 	r.Rule("R06.3", "client accepts only 200 / 101", 2)
 	r.Rule("R06.4", "single buffered reader owns the inbound stream", 6)
 	r.Rule("R06.5", "every index / slice expression on peer-supplied text is proven in bounds (linear-inequality entailment over dominating guards)", 2)
+	r.Rule("R06.6", "no header write into the nil map of a freshly built message object (it would panic on the accept path)", 1)
+	c06NoWriteIntoNilHeaderMap(w, r)
 
 	reqRead := w.Method("internal/socketace", "Request", "Read")
 	respRead := w.Method("internal/socketace", "Response", "Read")
